@@ -54,11 +54,11 @@ CHECKS["C09"] = mc("E3-fault-product on real rayon (tier A) + E4 rayon model (ti
   "Real-rayon interleavings are not enumerated by tier A (evidence says exhaustive=false for that dimension); two honest 64-bit draws collide with probability < 2^-58.", "4/C09")
 CHECKS["C10"] = mc("E1-choice-tree + E3-bounded-exhaustive",
   "stateless model checking over the RNG (all grid word sequences) on tagged parents, plus exhaustive enumeration of all index/range arguments of the exchange primitives",
-  "TwoPointXo and UniformXo in 6 flavours x all length pairs 0..5 (thorough 0..8): error iff lengths differ; child gene i comes from a parent's position i; two-point: one contiguous segment and every segment [a,b) including those touching either end occurs over all streams, empty parents give an empty child; uniform: every mask has probability exactly 2^-l (concluded only when the draws are one 32-bit word per gene; otherwise support only). Per-leaf oracle also on every stream over the grid plus the extreme words 0 and all-ones (lengths <= 4). Long genomes (63..129, thorough 31..257): two-point with both cut points enumerated, uniform under every stream with at most 1 (2) non-default words over an alphabet with alternating bit-block words: every position from either parent, every pair of positions from different parents, every segment. crossover_gene / crossover_segment for all indices and ranges up to length+2 on all length pairs 0..4, and on long bitstrings of equal and different sizes (1200..2100, thorough ..70001) for every segment length 0..=1100 from six start positions: in range => exactly the addressed genes swapped, out of range => Err and both genomes unchanged, never a panic. Two-point crossover of parents of usize::MAX, usize::MAX-1, 2^63, 2^32+1, 2^32 zero-sized genes on every stream over the extended grid: a child of that length, unequal lengths an error.",
+  "TwoPointXo and UniformXo in 6 flavours x all length pairs 0..5 (thorough 0..8): error iff lengths differ; child gene i comes from a parent's position i; two-point: one contiguous segment and every segment [a,b) including those touching either end occurs over all streams, empty parents give an empty child; uniform: every mask has probability exactly 2^-l (concluded only when the draws are one 32-bit word per gene; otherwise support only). Per-leaf oracle also on every stream over the grid plus the extreme words 0 and all-ones (lengths <= 4). Long genomes (63..129, thorough 31..257): two-point with both cut points enumerated, uniform under every stream with at most 1 (2) non-default words over an alphabet with alternating bit-block words: every position from either parent, every pair of positions from different parents, every segment; genomes of 999..65537 (1000003) genes with the per-leaf oracle on bounded streams. crossover_gene / crossover_segment for all indices and ranges up to length+2 on all length pairs 0..4, and on long bitstrings of equal and different sizes (1200..2100, thorough ..70001) for every segment length 0..=1100 from six start positions: in range => exactly the addressed genes swapped, out of range => Err and both genomes unchanged, never a panic. Two-point crossover of parents of usize::MAX, usize::MAX-1, 2^63, 2^32+1, 2^32 zero-sized genes on every stream over the extended grid: a child of that length, unequal lengths an error.",
   "Trusted: Grid(l(l+1)) is exact for cut points drawn from 0..l and from 0..=l.", "4/C10")
 CHECKS["C11"] = mc("E1-choice-tree",
   "stateless model checking over the RNG: all grid word sequences, structural oracle on every leaf",
-  "WithRate / WithOneOverLength on position-tagged bits (Vec, Vector, Bitstring, through Mutate) and Umad (new / new_with_empty_rate / new_without_empty) on tagged Vector, Plushy and Bitstring genomes with a numbering gene generator, parent lengths 0..3 (thorough 0..4), lattice rates incl. 0, 1 and 2: positions preserved, survivors in order, at most one insertion per parent position, provenance of new genes, all boundary-rate identities (incl. 1/length on one gene); the same on every stream over the grid plus the extreme words 0 and all-ones (flips <= 3, UMAD <= 2 genes); UMAD on long parents (64..257, thorough 31..300) under every stream with at most 1 (2) non-default words: structure per leaf, every position kept and deleted, an insertion after every position; one Umad::new_with_empty_rate value applied to an empty and a non-empty parent (1, 2, 37 genes) in either order for all lattice rates of its three parameters, both outputs judged.",
+  "WithRate / WithOneOverLength on position-tagged bits (Vec, Vector, Bitstring, through Mutate) and Umad (new / new_with_empty_rate / new_without_empty) on tagged Vector, Plushy and Bitstring genomes with a numbering gene generator, parent lengths 0..3 (thorough 0..4), lattice rates incl. 0, 1 and 2: positions preserved, survivors in order, at most one insertion per parent position, provenance of new genes, all boundary-rate identities (incl. 1/length on one gene); the same on every stream over the grid plus the extreme words 0 and all-ones (flips <= 3, UMAD <= 2 genes); UMAD on long parents (64..257, thorough 31..300) under every stream with at most 1 (2) non-default words: structure per leaf, every position kept and deleted, an insertion after every position; the flip mutators on genomes of 9..70, around 128 / 256, 1000, 4097, 65537 genes and UMAD on parents of 1000..65537 genes (deviation among the first 24 words, per-leaf oracle); one Umad::new_with_empty_rate value applied to an empty and a non-empty parent (1, 2, 37 genes) in either order for all lattice rates of its three parameters, both outputs judged.",
   "Structure is rate independent; the lattice reaches both outcomes of every coin.", "4/C11")
 CHECKS["C12"] = mc("E1-choice-tree",
   "stateless model checking over the RNG with exact probability laws (rationals) on lattice rates",
@@ -70,7 +70,7 @@ CHECKS["C13"] = mc("E1-choice-tree + E3",
   "Weight vectors whose lcm of node sums makes the tree exceed the budget are skipped and counted.", "4/C13")
 CHECKS["C14"] = mc("E3-bounded-exhaustive x fault plans",
   "bounded-exhaustive enumeration of composition trees x fault plans (deviation bound 2) on the real combinators through the erased layer, differential against the CompRef interpreter",
-  "All composition trees up to depth 2 (thorough: plus a stride of depth 3) over {probe, Identity, then, and, map over [T;2]/(T,T)/Vec, then_map, apply_n_times 0..3}; failure plans none / every single probe call / every pair: output value, error path, probe log (order, inputs, words drawn) and final tape position must equal CompRef's; every plan applied a second time to the same combinator value; mapped vectors of 255..70001 elements with the failure at the far end; Identity, Constant, GenomeExtractor, GenomeScorer, Mutate/Recombine wrappers add nothing. The reported error through the interface generic code has: for 19 typed compositions (then/and/map/repeat nestings up to depth 4, also boxed through DynOperator) the source() chain from the reported error has depth+1 links and ends at the failing part's own error, and the miette diagnostic_source() chain shows the same links.",
+  "All composition trees up to depth 2 (thorough: plus a stride of depth 3) over {probe, Identity, then, and, map over [T;2]/(T,T)/Vec, then_map, apply_n_times 0..3}; failure plans none / every single probe call / every pair: output value, error path, probe log (order, inputs, words drawn) and final tape position must equal CompRef's; every plan applied a second time to the same combinator value; mapped vectors of 255..70001 elements with the failure at the far end; Identity, Constant, GenomeExtractor, GenomeScorer, Mutate/Recombine wrappers add nothing; apply_n_times::<N>() for N up to 1000 with failures at the first, middle and last application. The reported error through the interface generic code has: for 19 typed compositions (then/and/map/repeat nestings up to depth 4, also boxed through DynOperator) the source() chain from the reported error has depth+1 links and ends at the failing part's own error, and the miette diagnostic_source() chain shows the same links.",
   "Error paths are compared through the derived Debug of ThenError/AndError/MapError, and through Display + source() in the error-chain cases.", "4/C14")
 CHECKS["C15"] = mc("E3-bounded-exhaustive",
   "small-scope exhaustive algebra: all pairs/triples over a boundary value domain, all short result vectors",
